@@ -959,7 +959,7 @@ def _instancecheck_callable(value: Optional[Callable], type_: Any, _, context: D
 
 
 def _is_lambda(obj: Any) -> bool:
-    return callable(obj) and obj.__name__ == '<lambda>'
+    return callable(obj) and getattr(obj, '__name__', None) == '<lambda>'  # functools.partial objects and instances with __call__ have no __name__
 
 
 def _instancecheck_type(value: Any, type_: Any, type_vars: Dict, context: Dict[str, Any] = None) -> bool:
